@@ -738,15 +738,21 @@ impl Machine {
                     }
                     Stmt::Troff => self.tron = false,
                     Stmt::Clear => self.clear(),
-                    Stmt::Input(prompt, vars) => {
+                    Stmt::Input(prompt, vars) | Stmt::InputNoCaps(prompt, vars) => {
                         let p = format!("{}? ", prompt.clone().unwrap_or_default());
+                        let caps = matches!(s, Stmt::Input(..));
                         loop {
-                            self.ev.push(REv::Prompt(p.clone(), true));
+                            self.ev.push(REv::Prompt(p.clone(), caps));
                             self.cur.col = 0;
                             let reply = match replies.pop_front() {
                                 Some(r) => r,
                                 None => return End::NeedInput,
                             };
+                            if reply.len() > 1024 {
+                                // longer than an input line can be
+                                self.ev.push(REv::Err("REDO FROM START".into(), None));
+                                continue;
+                            }
                             let fields = match input::fields_for(&reply, vars.len()) {
                                 Some(f) => f,
                                 None => {
